@@ -21,6 +21,7 @@ def _setup():
 M = Monitor(
     pid="C02",
     setup=_setup,
+    decoy=True,
     title="A registered system is the exact linear model of the receptor responses",
     rule=("cases: random non-negative filter sets (2-5 receptors) and source sets (1-8 sources) on scalar-step / uniform / "
           "non-uniform domains, K in {none, scalar, vector, matrix}, baseline in {0, scalar, vector}, intensity vectors of "
